@@ -106,6 +106,24 @@ def op_table():
                           ("delete rc 2", "gd_delete", 0), ("delete sraw 10", "gd_delete", 1),
                           ("rename rc newrc 1", "gd_rename", 0), ("rename sraw newsraw 9", "gd_rename", 1)):
         add(line, name, "dedit %d" % g)
+    # the same alterations with the new parameters given as scalar field codes (CONST names), which are resolved
+    # through the public gd_get_constant in the middle of the checks
+    for line, name, g in (("alter_spec phase%20PHASE%20raw%20kc 0", "gd_alter_spec", 0), ("alter_spec bit%20BIT%20raw%20kc%20kc 0", "gd_alter_spec", 0),
+                          ("alter_spec recip%20RECIP%20raw%20kc 0", "gd_alter_spec", 0), ("alter_spec poly%20POLYNOM%20raw%20kc%20kc 0", "gd_alter_spec", 0),
+                          ("alter_spec lincom%20LINCOM%20raw%20kc%20kc 0", "gd_alter_spec", 0), ("alter_spec mplex%20MPLEX%20raw%20r16%20kc%20kc 0", "gd_alter_spec", 0),
+                          ("alter_spec win%20WINDOW%20raw%20r16%20GT%20kc 0", "gd_alter_spec", 0), ("alter_spec sph%20PHASE%20sraw%20skc 0", "gd_alter_spec", 1),
+                          ("alter_entry_sc phase 6 kc 0", "gd_alter_entry", 0), ("alter_entry_sc recip 11 kc 0", "gd_alter_entry", 0),
+                          ("alter_entry_sc sph 6 skc 0", "gd_alter_entry", 1), ("alter_spec ac%20RAW%20UINT8%20skc 0", "gd_alter_spec", 0),
+                          ("alter_entry_sc sraw 1 skc 0", "gd_alter_entry", 1)):
+        add(line, name, "medit %d" % g)
+    for line, name, g in (("alter_spec ac%20RAW%20UINT8%20skc 1", "gd_alter_spec", 0), ("alter_spec rc%20RAW%20COMPLEX64%20kc 1", "gd_alter_spec", 0),
+                          ("alter_spec sraw%20RAW%20UINT8%20skc 1", "gd_alter_spec", 1), ("alter_entry_sc ac 1 skc 1", "gd_alter_entry", 0),
+                          ("alter_entry_sc rc 1 kc 1", "gd_alter_entry", 0), ("alter_entry_sc sraw 1 skc 1", "gd_alter_entry", 1),
+                          ("alter_spec sraw%20RAW%20UINT16%20skc 1", "gd_alter_spec", 1)):
+        add(line, name, "dedit %d" % g)
+    # a RAW field whose data file does not exist yet
+    add("putdata64 nofile 0 3 0 2 1", "gd_putdata64", "put w - R0")
+    add("putdata64 snofile 0 3 0 2 1", "gd_putdata64", "put w - R1")
     # cross-fragment effects
     add("rename sraw newsraw 2", "gd_rename", "renupdb 1 0,1")   # GD_REN_UPDB: rewrites the users of sraw (xph in fragment 0, sph in 1)
     add("rename raw newraw 2", "gd_rename", "renupdb 0 0")
@@ -144,6 +162,8 @@ def op_table():
     for line, name in (("flush !", "gd_flush"), ("sync !", "gd_sync"), ("metaflush", "gd_metaflush"), ("raw_close !", "gd_raw_close"),
                        ("flush raw", "gd_flush"), ("sync sraw", "gd_sync"), ("getdata64 raw 0 0 1 0 1", "gd_getdata64"),
                        ("getdata64 xbit 0 0 0 3 0x88", "gd_getdata64"), ("seek64 raw 0 500 4", "gd_seek64"), ("seek64 sraw 0 500 4", "gd_seek64"),
+                       ("seek64 nofile 0 5 4", "gd_seek64"), ("seek64 snofile 0 5 4", "gd_seek64"), ("seek64 nofile 0 5 0", "gd_seek64"),
+                       ("seek64 ab 0 5 4", "gd_seek64"), ("getdata64 nofile 0 0 0 2 1", "gd_getdata64"),
                        ("seek64 xph 0 50 6", "gd_seek64"), ("get_constant const 0x88", "gd_get_constant"), ("nframes64", "gd_nframes64"),
                        ("eof64 sraw", "gd_eof64"), ("entry raw", "gd_entry"), ("validate xlc", "gd_validate"), ("desync 0", "gd_desync"),
                        ("open_limit 2", "gd_open_limit"), ("mplex_lookback 5", "gd_mplex_lookback"), ("flags 0x80 0", "gd_flags"),
@@ -257,7 +277,8 @@ def main():
         if mode == "RDONLY" and (p0, p1) not in (("none", "none"), ("all", "none"), ("none", "all"), ("format", "data")) and not chk.thorough:
             continue
         cases.append({"id": "P%d" % len(cases), "mode": mode, "p0": p0, "p1": p1, "line": line, "name": name, "model": model,
-                      "cmds": ["dump", "op " + line, "close", "reopen RDONLY", "dump"]})
+                      "cmds": (["rmfile nofile", "rmfile sub/snofile"] if "nofile" in line else []) +
+                              ["dump", "op " + line, "close", "reopen RDONLY", "dump"]})
     res = c10.run_cases(exe, cases)
     chk.cov["evaluations"] = len(cases)
     viol = {}
